@@ -170,7 +170,8 @@ PROPS = {
         "level": "proof",
         "lean_modules": ["SqlizeModel.Props.C09"],
         "theorems": ["Sqlize.C09.column_up_total", "Sqlize.C09.column_down_total", "Sqlize.C09.index_up_total",
-                     "Sqlize.C09.load_never_panics", "Sqlize.C09.primitives_total", "Sqlize.readScript_noPanic"],
+                     "Sqlize.C09.load_never_panics", "Sqlize.C09.primitives_total", "Sqlize.readScript_noPanic",
+                     "Sqlize.C09.diff_and_print_never_panic", "Sqlize.C09.load_and_print_never_panic", "Sqlize.Table.diff_total", "Sqlize.Migration.migrate_total"],
         "suites": [{"name": "script"}, {"name": "pair"}],
         "corr_points": ["load", "state", "dump", "dump-down", "load-old", "load-new", "Diff", "StringUp", "StringDown"],
         "rule": SCRIPT_RULE + " | " + PAIR_RULE + " | C09: any panic recovered from a sqlize frame (load, state, dump up/down, hash, split loads, "
@@ -181,7 +182,8 @@ PROPS = {
         "explanation": "Proved for all inputs: loading never panics in the model — from the empty model every sequence of loads (3 reader models) "
                        "returns or fails with a listed non-panic error, because the map invariant is preserved and makes every looked-up position a "
                        "valid index (Sqlize.C09.load_never_panics). Proved for all states: the emitters' explicit panic sites are exactly (create of an empty table, redefined index of an "
-                       "unprintable kind); the emit side after Diff and the tie to the Go code are decided by correspondence: "
+                       "unprintable kind); for two engine-accepted MySQL scripts of any length Diff, MigrationUp and MigrationDown all return in the model "
+                       "(Sqlize.C09.diff_and_print_never_panic: no nil type compared, swapOrder always forward, every index record printable); other dialects and the tie to the Go code are decided by correspondence: "
                        "the model returns Except.error exactly where Go panics, and every generated case is checked for recovered panics.",
     },
 
